@@ -132,6 +132,51 @@ def gen_param_class(par: ast.AST) -> str:
             "  if isPyNumber then .pyFloat",
             "  else if (dtypeKind == 'b' || dtypeKind == 'i' || dtypeKind == 'u') || (dtypeKind == 'f' && itemsize < 8) then .astypeFloat64",
             "  else .asArray"]
+    # VectorParameter / MatrixParameter: the update methods
+    vcls = next((n for n in par.body if isinstance(n, ast.ClassDef) and n.name == "VectorParameter"), None)
+    mcls = next((n for n in par.body if isinstance(n, ast.ClassDef) and n.name == "MatrixParameter"), None)
+    if vcls is None or mcls is None:
+        raise TranslateError("VectorParameter / MatrixParameter not found")
+    vm = {n.name: n for n in vcls.body if isinstance(n, ast.FunctionDef)}
+    mm = {n.name: n for n in mcls.body if isinstance(n, ast.FunctionDef)}
+    vslots = next((_u(s.value) for s in vcls.body if isinstance(s, ast.Assign) and _u(s.targets[0]) == "__slots__"), None)
+    if vslots != "('name', 'size', '_parameters')":
+        raise TranslateError(f"VectorParameter.__slots__ = {vslots}: the model keeps the element Parameters and nothing else that holds values")
+    vset = _strip(vm["set"].body)
+    if not (len(vset) == 3 and _u(vset[0]) == "val_array = np.asarray(values)"
+            and isinstance(vset[1], ast.If) and not vset[1].orelse and _u(vset[1].test) == "val_array.shape != (self.size,)"
+            and len(vset[1].body) == 1 and isinstance(vset[1].body[0], ast.Raise) and _u(vset[1].body[0].exc).startswith("ShapeMismatchError(")
+            and _u(vset[2]) == "for i, param in enumerate(self._parameters):\n    param.set(val_array[i])"):
+        raise TranslateError(f"VectorParameter.set: {[_u(x)[:70] for x in vset]}")
+    vreads = {"__getitem__": None, "get_values": ["return np.array([p.value for p in self._parameters])"], "to_numpy": ["return self.get_values()"],
+              "__iter__": ["return iter(self._parameters)"], "__len__": ["return self.size"]}
+    for m, want in vreads.items():
+        if m not in vm:
+            raise TranslateError(f"VectorParameter.{m} not found")
+        got = [_u(x) for x in _strip(vm[m].body)]
+        if want is not None and got != want:
+            raise TranslateError(f"VectorParameter.{m}: {got}")
+    init_tail = _u(_strip(vm["__init__"].body)[-1])
+    if init_tail != "self._parameters: list[Parameter] = [Parameter(f'{name}[{i}]', val_array[i]) for i in range(size)]":
+        raise TranslateError(f"VectorParameter.__init__ does not end by creating one Parameter per element: {init_tail[:120]!r}")
+    out += ["", "/-- `VectorParameter.set(values)`: `none` = ShapeMismatchError (nothing was changed: the guard precedes the loop);",
+            "    `some k` = element i receives `val_array[i]` through `Parameter.set`, for i = 0 … k-1 in order -/",
+            "def vectorParamSetG (size : Nat) (shape : List Nat) : Option Nat := if shape != [size] then none else some size",
+            "/-- the readers of `VectorParameter` (checked): every value is read from the element Parameters -/",
+            "def vectorParamReadsG : List (String × String) := [(\"get_values\", \"return np.array([p.value for p in self._parameters])\"), "
+            "(\"to_numpy\", \"return self.get_values()\"), (\"__iter__\", \"return iter(self._parameters)\")]"]
+    mset = [_u(x) for x in _strip(mm["set"].body)]
+    want = ["arr = np.asarray(values, dtype=np.float64)",
+            None, None, "self._values = arr.copy()"]
+    ok = len(mset) == 4 and mset[0] == want[0] and mset[3] == want[3] \
+        and mset[1].startswith("if arr.shape != self._shape:\n    raise ShapeMismatchError(") \
+        and mset[2].startswith("if self._symmetric:\n    if not np.allclose(arr, arr.T, rtol=1e-10, atol=1e-14):\n        raise SymmetryError(")
+    if not ok:
+        raise TranslateError(f"MatrixParameter.set: {[x[:70] for x in mset]}")
+    out += ["/-- `MatrixParameter.set(values)`: `none` = ShapeMismatchError / SymmetryError (nothing changed); `some src` = ends with",
+            "    `self._values = src` (a private float64 COPY of the new array) -/",
+            "def matrixParamSetG (shapeOk symmetricFlag isSymmetric : Bool) : Option String :=",
+            "  if !shapeOk then none else if symmetricFlag && !isSymmetric then none else some \"np.asarray(values, dtype=np.float64).copy()\""]
     return "\n".join(out) + "\n"
 
 
